@@ -10,3 +10,5 @@ import FuraxProofs.Props.C05
 #print axioms Furax.C05.promoted_dtype_is_join
 #print axioms Furax.C05.narrower_parameter_keeps_dtype
 #print axioms Furax.C05.reduce_keeps_structures
+#print axioms Furax.C05.reduce_keeps_structures_closed
+#print axioms Furax.C05.declared_sizes_honest
